@@ -56,6 +56,14 @@ func init() {
 	probes["O53"] = probeO53
 	probes["O54"] = probeO54
 	probes["O55"] = probeO55
+	probes["O66"] = func() (bool, string) {
+		return guard(func() (bool, string) {
+			c, _ := ucfg.NewFrom(map[string]interface{}{"a": []int{3}})
+			m := map[string][]int{"a": {1, 2}}
+			err := c.Unpack(&m, ucfg.ReplaceArrValues)
+			return err != nil || len(m["a"]) != 1, fmt.Sprint(err, " ", m)
+		})
+	}
 	probes["O65"] = func() (bool, string) {
 		return guard(func() (bool, string) {
 			type in struct{ X, Y int }
